@@ -15,3 +15,5 @@
 #define fputs    verif_fputs
 #define fflush   verif_fflush
 #define fwrite   verif_fwrite
+#define sprintf  verif_sprintf
+#define snprintf verif_snprintf
